@@ -356,7 +356,10 @@ func (l *BlockchainRpcTxWatcher) observationLoop(
 
 			// Now check if we got enough confirmations. We use first seen - 1
 			// as this is the block the tx was confirmed in the first time.
-			if current-(firstSeen-1) >= l.requiredConfs {
+			// The notified height may lag the node: a transaction first seen
+			// above it has no confirmations from this height's point of view
+			// (and the unsigned subtraction below would wrap).
+			if current+1 >= firstSeen && current-(firstSeen-1) >= l.requiredConfs {
 				// We finally made it, enough confirmations and below the safety
 				// limit!
 				l.callbackAndLog(swapId, rawTx, nil)
